@@ -11,28 +11,47 @@ theorem ViewWithin.mono {lo hi lo' hi' : Nat} {v : View} (h : ViewWithin lo hi v
   | none => trivial
   | some c => obtain ⟨a, b⟩ := h; exact ⟨by omega, by omega⟩
 
+theorem splitOnCharN1_ok (doc : Bytes) (inp : Cur) (c : UInt8) (hv : inp.off + inp.len ≤ doc.length) :
+    Ok (splitOnCharN1 doc inp c) (fun ps => ∀ p ∈ ps, inp.off ≤ p.off ∧ p.off + p.len ≤ inp.off + inp.len) := by
+  unfold splitOnCharN1
+  rw [memchr_ok hv]
+  simp only [bind, Except.bind, pure, Except.pure]
+  cases hk : idxOf c ((doc.drop inp.off).take inp.len) with
+  | none =>
+    refine ⟨_, rfl, ?_⟩
+    intro p hp
+    simp only [List.mem_singleton] at hp
+    subst hp; exact ⟨Nat.le_refl _, Nat.le_refl _⟩
+  | some k =>
+    have hk1 := (idxOf_some hk).1
+    simp only [List.length_take, List.length_drop] at hk1
+    simp only
+    rw [memchr_ok (by omega)]
+    refine ⟨_, rfl, ?_⟩
+    intro p hp
+    simp only [List.mem_cons, List.not_mem_nil, or_false] at hp
+    rcases hp with rfl | rfl
+    · simp only; omega
+    · simp only; omega
+
 theorem loadAttr_ok (doc : Bytes) (pair : Cur) (le : Err) (hv : pair.off + pair.len ≤ doc.length) :
     Ok (loadAttr doc pair le) (fun r => ∀ a, r.1 = some a → AttrWithin pair.off (pair.off + pair.len) a) := by
   unfold loadAttr
-  rw [splitOnChar_spec doc pair EQS 2 hv]
+  obtain ⟨ps, hps, hin⟩ := splitOnCharN1_ok doc pair EQS hv
+  rw [hps]
   simp only [bind, Except.bind]
-  cases hs : splitSpec doc pair EQS 2 with
-  | none => exact ⟨_, rfl, by simp⟩
-  | some ps =>
-    obtain ⟨_, _, hin⟩ := splitSpec_inside hv hs
-    have hw : ∀ i : Nat, ViewWithin pair.off (pair.off + pair.len) ps[i]? := by
-      intro i
-      cases hi : ps[i]? with
-      | none => trivial
-      | some c => exact hin c (List.mem_of_getElem? hi)
-    simp only
-    obtain ⟨v, hv', hvw⟩ := trimQuotes_ok doc ps[1]? pair.off (pair.off + pair.len) hv (hw 1)
-    rw [hv']
-    refine ⟨_, rfl, ?_⟩
-    intro a ha
-    simp only [pure, Except.pure, Option.some.injEq] at ha
-    subst ha
-    exact ⟨hw 0, hvw⟩
+  have hw : ∀ i : Nat, ViewWithin pair.off (pair.off + pair.len) ps[i]? := by
+    intro i
+    cases hi : ps[i]? with
+    | none => trivial
+    | some c => exact hin c (List.mem_of_getElem? hi)
+  obtain ⟨v, hv', hvw⟩ := trimQuotes_ok doc ps[1]? pair.off (pair.off + pair.len) hv (hw 1)
+  rw [hv']
+  refine ⟨_, rfl, ?_⟩
+  intro a ha
+  simp only [pure, Except.pure, Option.some.injEq] at ha
+  subst ha
+  exact ⟨hw 0, hvw⟩
 
 theorem loadAttrs_ok (doc : Bytes) (lo hi : Nat) (hhi : hi ≤ doc.length) : ∀ (ps : List Cur) (le : Err),
     (∀ p ∈ ps, lo ≤ p.off ∧ p.off + p.len ≤ hi) →
